@@ -1,7 +1,6 @@
 package main
 
 import (
-	"regexp"
 	"encoding/json"
 	"fmt"
 	"go/ast"
@@ -9,6 +8,7 @@ import (
 	"os"
 	"os/exec"
 	"path/filepath"
+	"regexp"
 	"sort"
 	"strings"
 	"time"
